@@ -16,6 +16,9 @@ class St:
 class Ent:
     def __init__(self, name):
         self.name = name
+        # a custom listdir (PollingObserverVFS) may hand out entries whose .path lies in a backing store: the snapshot's paths
+        # are built from the directory being listed and the entry's NAME
+        self.path = "/backing-store/" + name
 
 
 def build(tree, recursive=True):
@@ -55,8 +58,9 @@ def expected(ref, snap, ignore_device=False):
 LISTS = ["dirs_created", "files_created", "dirs_deleted", "files_deleted", "dirs_modified", "files_modified", "dirs_moved", "files_moved"]
 
 
-def check_pair(ref, snap, ignore_device=False, via_sub=False):
-    a, b = build(ref), build(snap)
+def check_pair(ref, snap, ignore_device=False, via_sub=False, recursive=True):
+    # the trees are one level deep: a non-recursive snapshot lists exactly the same entries, and must classify them the same
+    a, b = build(ref, recursive), build(snap, recursive)
     d = (b - a) if via_sub else DirectorySnapshotDiff(a, b, ignore_device=ignore_device)
     exp = expected(ref, snap, ignore_device)
     problems = []
@@ -94,7 +98,7 @@ def main():
     if REPLAY is not None:
         ref = {k: tuple(v) for k, v in REPLAY["ref"].items()}
         snap = {k: tuple(v) for k, v in REPLAY["snap"].items()}
-        pr = check_pair(ref, snap, REPLAY.get("ignore_device", False), REPLAY.get("via_sub", False))
+        pr = check_pair(ref, snap, REPLAY.get("ignore_device", False), REPLAY.get("via_sub", False), REPLAY.get("recursive", True))
         replay_result(bool(pr), pr)
     bat = Battery({"names": 2 if TIER == "quick" else 3, "inodes": 3, "(mtime,size)": 3, "kinds": 2, "pairs": "16000 random of 64009 (quick) / all 2-name + 60000 random 3-name (thorough)"})
     MS = [(0, 0), (1, 0), (0, 1)]
@@ -116,6 +120,11 @@ def main():
         bat.case(hash(sig), nontrivial=(ref != snap), desc={"ref": {k: list(v) for k, v in ref.items()}, "snap": {k: list(v) for k, v in snap.items()}})
         if pr:
             bat.fail("C09.diff-laws", pr[0], {"ref": ref, "snap": snap, "ignore_device": False, "via_sub": via_sub, "problems": pr[:3]}, "DirectorySnapshotDiff.__init__")
+        if n % 3 == 0:
+            bat.case(hash((sig, "non-recursive")))
+            pr = check_pair(ref, snap, False, False, False)
+            if pr:
+                bat.fail("C09.diff-laws(non-recursive snapshots)", pr[0], {"ref": ref, "snap": snap, "ignore_device": False, "via_sub": False, "recursive": False, "problems": pr[:3]}, "DirectorySnapshot.walk")
         if n % 5 == 0:
             # law 7: pure device change with ignore_device
             snap2 = {p: (v[0], 2, v[2], v[3], v[4]) for p, v in ref.items()}
